@@ -391,6 +391,11 @@ func (ow *opWorld) monitorOps() {
 		if t == nil {
 			t = &opTrack{op: op, firstSeen: ow.RC.S.Step, admitAfter: ow.prevMon, lastStatus: op.Status(), desc: op.Desc(), region: op.RegionID(), foreignAtAdmit: ow.foreignSeenByPD(op.RegionID(), op.GetCreateTime())}
 			if r := ow.M.Regions[op.RegionID()]; r != nil {
+				// built on an epoch the region has already left (PD had not heard of the latest change yet, e.g. the last
+				// step of the operator it replaces): that change is a foreign one for this operator
+				if e := op.RegionEpoch(); e.GetConfVer() != r.ConfVer || e.GetVersion() != r.Ver {
+					t.foreignAtAdmit = -1
+				}
 				t.originVoters = r.Voters()
 				t.originPeers = append([]simtikv.Peer(nil), r.Peers...)
 				t.originLeader = r.Leader
